@@ -93,6 +93,16 @@ impl Gen {
                                     pair: None,
                                 });
                                 total += d.len() as u64;
+                                // the same sweep on the LAST element of a three-element list
+                                blocks.push(Block {
+                                    kind: ki,
+                                    baseline: b,
+                                    target: Some((fi, Some((2, ei)))),
+                                    start: total,
+                                    dom: d.clone(),
+                                    pair: None,
+                                });
+                                total += d.len() as u64;
                             }
                         },
                         Ty::Array { n, elem } => {
@@ -207,7 +217,19 @@ impl Gen {
                         })
                         .collect();
                     e[ei] = b.dom[off].clone();
-                    vals[fi] = Val::L(vec![e]);
+                    if pos == 0 {
+                        vals[fi] = Val::L(vec![e]);
+                    } else {
+                        // two distinct elements in front of the swept one
+                        let front = |salt: usize| -> Vec<Val> {
+                            elem.iter().enumerate().map(|(j, f)| {
+                                if capped(elem) && f.name == "H_Mass" { Val::N(10 + salt as i64) }
+                                else if capped(elem) && f.name == "H_TRes" { Val::N(20 + salt as i64) }
+                                else { spec::b1(f, j + 11 * (salt + 1)) }
+                            }).collect()
+                        };
+                        vals[fi] = Val::L(vec![front(0), front(1), e]);
+                    }
                 } else if let Val::L(items) = &mut vals[fi] {
                     items[pos][ei] = b.dom[off].clone();
                 }
